@@ -148,6 +148,19 @@ func (api *API) mapEncodeInterface(
 		return nil, ierrors.Wrapf(err, "failed to encode interface element %s", elemType)
 	}
 
+	// the decoder finds the implementation through the type code of the object: an implementation whose map form has no
+	// place for it (a string, a number, a slice of non-bytes, a map) can't be expressed
+	hasTypeCode := false
+	switch eleMap := ele.(type) {
+	case *orderedmap.OrderedMap:
+		_, hasTypeCode = eleMap.Get(keyType)
+	case map[string]any:
+		_, hasTypeCode = eleMap[keyType]
+	}
+	if !hasTypeCode {
+		return nil, ierrors.Errorf("the map form of interface element %s does not carry its type code", elemType)
+	}
+
 	return ele, nil
 }
 
